@@ -46,13 +46,13 @@ REQUIRED = {
     "C10": ["events_after_restart_compared", "foreign_loader_rejected", "restart_to_older_snapshot", "restarts_checked",
             "round_trips_checked", "shared_loads_checked_through_a_peer"],
     "C12": ["entry_add", "entry_add_ngram", "entry_update_dict", "entry_update_list", "entry_update_ngram", "ngram_len_eq_n",
-            "ngram_len_gt_n", "ngram_len_lt_n"],
+            "ngram_len_gt_n", "ngram_len_lt_n", "key_lifted_to_just_below_ceiling", "multiplicity_straddles_ceiling"],
     "C13": ["queries_checked", "repeat_query_changed_threshold", "repeat_query_same_threshold", "#deliver", "#attach"],
     "C15": ["agreeing_merges_checked", "refusals_checked:depth", "refusals_checked:max_count", "refusals_checked:mkl",
             "refusals_checked:num_reserved", "refusals_checked:p", "refusals_checked:seed", "refusals_checked:width",
             "refusals_checked:family"],
     "C16": ["events_routed_through_a_view", "events_with_views_compared", "hh_key_area_not_multiple_of_4", "owner_drops_checked",
-            "owner_drops_checked_owner_first", "unaligned_bookkeeping_offset", "view_drops_checked"],
+            "owner_drops_checked_owner_first", "unaligned_bookkeeping_offset", "view_drops_checked", "shared_memory_view_drops_checked"],
     "C18": ["ctor_accepted", "ctor_raised_ValueError", "lone_hh_key_checked", "op_on_saturated_key"],
     "C19": ["callback_raised", "worker_died", "parallel_add_raised_after_death", "kills_issued", "filler_blocked_on_full_queue",
             "#line_preemptions_in_helpers"],
